@@ -99,6 +99,12 @@ func runC08(c *an.Ctx) {
 	r083(c)
 	r084(c)
 	r085(c)
+	// the event a filtered subscriber's predicate sees is the one the writer published: the change helpers of
+	// pkg/resource (filter, include, the Pull goroutines) never write a published event or its values (E2)
+	runE2(c, "R08.6", func(fn *ssa.Function) bool {
+		return fn.Package() != nil && strings.HasSuffix(fn.Package().Pkg.Path(), "/pkg/resource")
+	})
+	c.Min("R08.6", 10)
 	c.Min("R08.5", 3)
 	c.Min("R08.1", 5)
 	c.Min("R08.2", 4)
